@@ -25,6 +25,12 @@ CHECKS = {
  "C10": dict(technique="TLA+ encoding spec (RVCtl ToRaw/FromRaw/PatEnvelope) checked by TLC over every value of every class; complete enumeration of real get_raw/set_raw/pattern_value judged by the trace spec",
              text="The finite domain is enumerated completely on both sides: TLC checks bijectivity, non-negativity and injectivity of the stored encoding over every value of every YAML range (all units), and the real get_raw/set_raw/pattern_value are called for every value of every controller of every type under every unit (reached by keyword, assignment, set_raw and clone); TLC checks the observed tables (lossless affine runs) against each controller's YAML range and the monotone/end-point envelope.",
              ref="5/C10, A.5"),
+ "C11": dict(technique="TLA+ options spec (RVOptions: SetOption/Pack/Unpack) model-checked by TLC; real option assignments, written options records and reloads judged by the trace spec",
+             text="MC_RVOptions explores assignments of every representable value to every option of the five option-bearing types in any order (invariants: Unpack(Pack)=id, exclusive options never both on, declared bounds, record covers the highest byte, bits disjoint). Real modules (fresh and loaded-then-edited) get every value of every option, all option pairs and random full assignments, are saved stand-alone and in a project and reloaded; TLC compares the assignment result, the options record bytes with Pack, and the reloaded values.",
+             ref="5/C11, A.5"),
+ "C12": dict(technique="TLA+ packed-word/note-cell spec (RVWords) model-checked by TLC over (old word, field, new value) triples; array-valued traces from real Note/Pattern/Visualization/module/project objects judged by the trace spec",
+             text="SetterCorrect (field reads back masked/clamped, all other fields unchanged) is checked by TLC for every triple of the bounded word sets (thorough: all 65536 note words x all values); real objects are driven over complete old-word axes and complete new-value axes, all NOTECMD x velocity cells, random pattern byte images (in memory and through files) and the SMII/SFGS file words, and TLC compares each result with SetSub/GetSub/NoteBytes/Image.",
+             ref="5/C12, A.5"),
 }
 PENDING = {}
 props = [json.loads(l) for l in open(os.path.join(HERE, "properties.jsonl"))]
